@@ -150,13 +150,15 @@ pub struct Judge<'w> {
     pub stats: Stats,
     /// cached in-memory outcome of the previous case when the bytes are the same (C12)
     mem_cache: Option<(u64, bool, LegOut)>,
-    /// C19: the previous failing input per (level, protocol, leg), for the retention oracle
+    /// C19: the previous failing input per (level, protocol, leg) within the current unit, for the
+    /// retention oracle (unit-local, so that what is explored does not depend on the worker count)
     prev_failing: std::collections::BTreeMap<String, Vec<u8>>,
+    prev_unit: u64,
 }
 
 impl<'w> Judge<'w> {
     pub fn new(w: &'w World) -> Self {
-        Judge { w, stats: Stats::default(), mem_cache: None, prev_failing: Default::default() }
+        Judge { w, stats: Stats::default(), mem_cache: None, prev_failing: Default::default(), prev_unit: u64::MAX }
     }
 
     pub fn run(&mut self, case: &Case) -> Vec<Violation> {
@@ -599,6 +601,10 @@ impl<'w> Judge<'w> {
     }
 
     fn c19(&mut self, case: &Case) -> Vec<Violation> {
+        if case.unit != self.prev_unit {
+            self.prev_failing.clear();
+            self.prev_unit = case.unit;
+        }
         let tag = case.unit << 20 | case.idx;
         let bound = Self::alloc_bound(case.bytes.len());
         let caps = AllocCaps { single: Self::single_request_cap(case.bytes.len()), window: 4 * bound };
@@ -664,7 +670,8 @@ impl<'w> Judge<'w> {
                 // kept from the decoded data (a free list, a cache) that the next decode of the same
                 // input merely replaces. The two differ in whether it happens again: decode the previous
                 // failing input of this kind, then this one, twice over; initialisation cannot repeat.
-                self.stats.bump("info.first_run_growth");
+                // (not counted: whether a first decode meets one-time initialisation depends on what the
+                // process ran before, i.e. on the worker count)
                 let key = format!("{}|{}|{}", level_key(&case.level), case.proto.name(), leg);
                 let prior = case.prior.clone().or_else(|| self.prev_failing.get(&key).cloned());
                 if let Some(p) = prior {
@@ -679,7 +686,6 @@ impl<'w> Judge<'w> {
                             drop(self.c19_leg(case, caps, tag));
                             *a = alloc::live() - before;
                         }
-                        self.stats.bump("c19.retention_confirmations");
                         if again[0] > 0 && again[1] > 0 {
                             let site = format!("{}/{}/{}", leg, level_key(&case.level), decode_path(self.w, &case.level, &chain));
                             let mut vc = case.clone();
